@@ -4,6 +4,7 @@ import Cellml.C17.Lift
 import Cellml.Tie.LoaderStagesA
 import Cellml.Tie.LoaderStagesC
 import Cellml.Tie.LoaderStagesD
+import Cellml.Tie.MathsWalk
 
 /-! # Transfer lemmas: from the loader ties to statements whose subject is the GENERATED code
 
@@ -14,15 +15,17 @@ import Cellml.Tie.LoaderStagesD
       to the closed generated loop `genConnectLoop`; `connect_err_class`: the classes the work list raises;
     * `genStages`, `genParse`, `genParse_tie` — the generated `Parser.parse` run over stages that are GENERATED CODE down
       to the leaves: `_add_units`, `_add_components`, `_add_relationships` (+ `_handle_component_ref`),
-      `_add_connections` (+ `_determine_connection_direction`), the symbol resolution of `_add_maths`,
-      `transform_constants` (`Tie/LoaderStagesA…D.lean`: each stage proved equal to the stage of the hand model it
-      replaces; `genStages_mid`); `genParse_tie`: it IS `C17.loadFull`;
+      `_add_connections` (+ `_determine_connection_direction`), ALL of `_add_maths` (`Tie/MathsWalk.lean`: the loops,
+      the transpiler construction with the generated closure and the translated lambda, the GENERATED `add_equation`
+      for every equation — no `C17.badEqErr` any more), `transform_constants` (`Tie/LoaderStagesA…D.lean`: each stage
+      proved equal to the stage of the hand model it replaces; `genStages_mid`); `genParse_tie`: it IS `C17.loadFull`
+      on documents whose first bad equation is what `C17.BadLhs` documents (`PMathsWalk.BadWF`);
     * `parse_ok_iff`, `parse_error_of_loadFull`, `parse_isErr_iff`, `parse_ok_flat` — `genParse` succeeds / raises
       exactly when `C17.loadFull` does (corollaries of `genParse_tie`);
     * `loadFull_ok_parts` — what a successful `loadFull` went through. -/
 
 namespace Cellml.Tie.GenA
-open Load Cellml.Gen Cellml.Tie Cellml.Tie.LoaderClose
+open Load Cellml.Gen Cellml.Tie Cellml.Tie.LoaderClose Cellml.Tie.PMathsWalk
 
 /-- the generated `symbol_generator` with its `while` cut off after `n` iterations, for every `n` -/
 theorem symbolGenerator_fuel (vt : VarTable) (m : List (VRef × VRef)) (n : Nat) (cname x : String) :
@@ -152,19 +155,20 @@ theorem genConnStage_eq (fd : C17.FaultDoc) : genConnStage = (parseView fd).addC
 /-- the stages the generated `parse` is run over. GENERATED (each proved equal to the stage of the hand model it
     replaces): `_add_units` (`genUnitsStage`: set-up pass + closed `while`), `_add_components` (`genCompsStage`),
     `_add_relationships` with `_handle_component_ref` (`genRelStage`, recursion closed), `_add_connections`
-    (`genConnStage`: set-up part with `_determine_connection_direction`, closed `while`), the symbol resolution of
-    `_add_maths` (`genMathsStage`: every identifier through the GENERATED closure `symbol_generator`; the walk of the
-    MathML transpiler around it belongs to C02 and is written by hand there), `transform_constants`
-    (`genConstsStage'`, on the equations `_add_maths` added). Still the hand model's: the refusal of left-hand sides
-    outside the fragment (`C17.badEqErr`) and the XML leaves `etree.parse`, `_validate` (RELAX NG), the `findall` of
-    `component/units`, `Model(...)`, `_add_rdf`. -/
+    (`genConnStage`: set-up part with `_determine_connection_direction`, closed `while`), `_add_maths`
+    (`genMathsWalkStage`: the GENERATED function on the `<component>` elements of the document — every identifier through
+    the GENERATED closure `symbol_generator`, every number through the translated lambda `number_generator`, every
+    equation through the GENERATED `Model.add_equation`, which refuses a bad left-hand side and a second definition; the
+    walk of the MathML transpiler between them, `PMathsWalk.walkExpr`, is written by hand: the Transpiler's source is tied
+    for C02), `transform_constants` (`genConstsStage'`, on the equations `_add_maths` added). Still the hand model's: the
+    XML leaves `etree.parse`, `_validate` (RELAX NG), the `findall` of `component/units`, `Model(...)`, `_add_rdf`. -/
 def genStages (fd : C17.FaultDoc) : ParseView :=
   { parseView fd with
     addUnits := genUnitsStage
     addComponents := genCompsStage
     addRelationships := genRelStage
     addConnections := genConnStage
-    addMaths := genMathsStage fd
+    addMaths := genMathsWalkStage fd
     transformConstants := genConstsStage' }
 
 /-- the stages that are pointwise those of the hand model put back: what is left differs from `parseView fd` in the
@@ -173,7 +177,7 @@ def genStages (fd : C17.FaultDoc) : ParseView :=
 def midStages (fd : C17.FaultDoc) : ParseView :=
   { parseView fd with
     addUnits := genUnitsStage
-    addMaths := genMathsStage fd
+    addMaths := genMathsWalkStage fd
     transformConstants := genConstsStage' }
 
 theorem genStages_mid (fd : C17.FaultDoc) : genStages fd = midStages fd := by
@@ -200,7 +204,7 @@ theorem genClass_of_units_ok {fd : C17.FaultDoc} {r : Registry × Units.Store} (
 
 /-- **`Parser.parse`, generated down to the leaves, IS `C17.loadFull`**: the same finished flat model, or an
     exception exactly when `loadFull` refuses (class `genClass`) -/
-theorem genParse_tie (fd : C17.FaultDoc) (us : Option Unit) :
+theorem genParse_tie (fd : C17.FaultDoc) (hb : BadWF fd = true) (us : Option Unit) :
     (genParse fd us).map (·.flat) =
       match C17.loadFull fd with
       | .error e => .error ⟨genClass fd e⟩
@@ -208,7 +212,7 @@ theorem genParse_tie (fd : C17.FaultDoc) (us : Option Unit) :
   unfold genParse
   rw [genStages_mid]
   unfold LoaderParse.parse C17.loadFull genClass
-  simp only [midStages, genMathsStage_eq, parseView, bind, Except.bind, throw, throwThe, MonadExceptOf.throw, stageErr,
+  simp only [midStages, genMathsWalkStage_eq fd hb, parseView, bind, Except.bind, throw, throwThe, MonadExceptOf.throw, stageErr,
     genUnitsStage_eq]
   by_cases hs : C17.schemaVars fd.doc = true
   · simp only [hs, Bool.not_true, Bool.false_eq_true, if_false, Bool.true_and]
@@ -271,47 +275,6 @@ theorem genParse_tie (fd : C17.FaultDoc) (us : Option Unit) :
                       | ok u => simp [Except.map]
   · simp [hs, Except.map, C17.className, Err.className]
 
-/-- the generated `parse` returns a finished model exactly when `loadFull` does, and it is the same model -/
-theorem parse_ok_iff (fd : C17.FaultDoc) (us : Option Unit) (F : Flat) :
-    (genParse fd us).map (·.flat) = .ok (some F) ↔ C17.loadFull fd = .ok F := by
-  rw [genParse_tie]
-  cases C17.loadFull fd with
-  | error e => simp
-  | ok F' => simp
-
-/-- the generated `parse` raises whenever `loadFull` does, with the class `genClass` -/
-theorem parse_error_of_loadFull {fd : C17.FaultDoc} (us : Option Unit) {e : Err} (h : C17.loadFull fd = .error e) :
-    genParse fd us = .error ⟨genClass fd e⟩ := by
-  have := genParse_tie fd us
-  rw [h] at this
-  cases hp : genParse fd us with
-  | error e' => rw [hp] at this; simpa [Except.map] using this
-  | ok s => rw [hp] at this; simp [Except.map] at this
-
-theorem parse_isErr_iff (fd : C17.FaultDoc) (us : Option Unit) :
-    (∃ e, genParse fd us = .error e) ↔ ∃ e, C17.loadFull fd = .error e := by
-  constructor
-  · rintro ⟨e, he⟩
-    have := genParse_tie fd us
-    rw [he] at this
-    cases hl : C17.loadFull fd with
-    | error e' => exact ⟨e', rfl⟩
-    | ok F => rw [hl] at this; simp [Except.map] at this
-  · rintro ⟨e, he⟩
-    exact ⟨_, parse_error_of_loadFull us he⟩
-
-/-- the generated `parse` never returns a state without a finished model -/
-theorem parse_ok_flat {fd : C17.FaultDoc} {us : Option Unit} {ps : ParseState}
-    (h : genParse fd us = .ok ps) : ∃ F, ps.flat = some F ∧ C17.loadFull fd = .ok F := by
-  have := genParse_tie fd us
-  rw [h] at this
-  cases hl : C17.loadFull fd with
-  | error e => rw [hl] at this; simp [Except.map] at this
-  | ok F =>
-    rw [hl] at this
-    simp only [Except.map, Except.ok.injEq] at this
-    exact ⟨F, this, rfl⟩
-
 /-- the stages a successful `loadFull` went through -/
 theorem loadFull_ok_parts {fd : C17.FaultDoc} {F : Flat} (h : C17.loadFull fd = .ok F) :
     C17.schemaVars fd.doc = true ∧ fd.compUnits = [] ∧ fd.badEqs = [] ∧
@@ -340,6 +303,53 @@ theorem loadFull_ok_parts {fd : C17.FaultDoc} {F : Flat} (h : C17.loadFull fd = 
               cases hbe : fd.badEqs with
               | nil => rfl
               | cons b r => rw [hbe] at hb; simp at hb
+
+/-- the generated `parse` returns a finished model exactly when `loadFull` does, and it is the same model -/
+theorem parse_ok_iff (fd : C17.FaultDoc) (hb : BadWF fd = true) (us : Option Unit) (F : Flat) :
+    (genParse fd us).map (·.flat) = .ok (some F) ↔ C17.loadFull fd = .ok F := by
+  rw [genParse_tie fd hb]
+  cases C17.loadFull fd with
+  | error e => simp
+  | ok F' => simp
+
+/-- a document `loadFull` accepts has no bad equation, so it needs no hypothesis: the generated `parse` returns the
+    same model -/
+theorem parse_ok_of_loadFull {fd : C17.FaultDoc} (us : Option Unit) {F : Flat} (h : C17.loadFull fd = .ok F) :
+    (genParse fd us).map (·.flat) = .ok (some F) :=
+  (parse_ok_iff fd (BadWF_of_nil (loadFull_ok_parts h).2.2.1) us F).mpr h
+
+/-- the generated `parse` raises whenever `loadFull` does, with the class `genClass` -/
+theorem parse_error_of_loadFull {fd : C17.FaultDoc} (hb : BadWF fd = true) (us : Option Unit) {e : Err}
+    (h : C17.loadFull fd = .error e) : genParse fd us = .error ⟨genClass fd e⟩ := by
+  have := genParse_tie fd hb us
+  rw [h] at this
+  cases hp : genParse fd us with
+  | error e' => rw [hp] at this; simpa [Except.map] using this
+  | ok s => rw [hp] at this; simp [Except.map] at this
+
+theorem parse_isErr_iff (fd : C17.FaultDoc) (hb : BadWF fd = true) (us : Option Unit) :
+    (∃ e, genParse fd us = .error e) ↔ ∃ e, C17.loadFull fd = .error e := by
+  constructor
+  · rintro ⟨e, he⟩
+    have := genParse_tie fd hb us
+    rw [he] at this
+    cases hl : C17.loadFull fd with
+    | error e' => exact ⟨e', rfl⟩
+    | ok F => rw [hl] at this; simp [Except.map] at this
+  · rintro ⟨e, he⟩
+    exact ⟨_, parse_error_of_loadFull hb us he⟩
+
+/-- the generated `parse` never returns a state without a finished model -/
+theorem parse_ok_flat {fd : C17.FaultDoc} (hb : BadWF fd = true) {us : Option Unit} {ps : ParseState}
+    (h : genParse fd us = .ok ps) : ∃ F, ps.flat = some F ∧ C17.loadFull fd = .ok F := by
+  have := genParse_tie fd hb us
+  rw [h] at this
+  cases hl : C17.loadFull fd with
+  | error e => rw [hl] at this; simp [Except.map] at this
+  | ok F =>
+    rw [hl] at this
+    simp only [Except.map, Except.ok.injEq] at this
+    exact ⟨F, this, rfl⟩
 
 /-- … so it is `Load.loadFrom` on the units of the work list -/
 theorem loadFull_ok_loadFrom {fd : C17.FaultDoc} {F : Flat} (h : C17.loadFull fd = .ok F) :
